@@ -352,6 +352,7 @@ func hexChunks(stream []byte, cuts []int) string {
 }
 
 func (e *framingEngine) Generate(c *Ctx) {
+	c.Guard = true // a fatal runtime error in the real code leaves the op in pending.txt
 	defer func() {
 		if e.cancel != nil {
 			e.cancel()
